@@ -1,0 +1,66 @@
+//go:build verif
+
+package dtlcp
+
+import (
+	"errors"
+	"net"
+)
+
+// Verification hooks (build tag `verif` only) for the transmit-size correspondence check:
+// a connection whose write half carries the real cipher of a suite (fixed key material)
+// over a caller-supplied PacketConn, so that maxPayloadSizeForWrite, encrypt,
+// writeRecordLocked, write and flush run unchanged and the datagrams can be measured.
+// Nothing here is compiled without the tag.
+
+// VerifTx wraps such a connection.
+type VerifTx struct{ c *Conn }
+
+// VerifNewTx returns a client connection over pconn with Config.PMTU = pmtu whose write
+// half is switched to the cipher of suite id the way establishKeys + changeCipherSpec do
+// (id 0: no cipher, epoch 0).
+func VerifNewTx(pconn net.PacketConn, remote net.Addr, id uint16, pmtu int) (*VerifTx, error) {
+	c := Client(pconn, remote, &Config{PMTU: pmtu})
+	c.vers = VersionTLCP
+	c.haveVers = true
+	if id != 0 {
+		s := cipherSuites[id]
+		if s == nil {
+			return nil, errors.New("unknown suite")
+		}
+		key := make([]byte, s.keyLen)
+		iv := make([]byte, s.ivLen)
+		for i := range key {
+			key[i] = byte(i + 1)
+		}
+		if s.aead != nil {
+			c.out.prepareCipherSpec(VersionTLCP, s.aead(key, iv), nil)
+		} else {
+			c.out.prepareCipherSpec(VersionTLCP, s.cipher(key, iv, false), s.mac(make([]byte, s.macLen)))
+		}
+		if err := c.out.changeCipherSpec(); err != nil {
+			return nil, err
+		}
+		c.writeEpoch = 1
+	}
+	return &VerifTx{c}, nil
+}
+
+// MaxPayload calls maxPayloadSizeForWrite for a record of type typ.
+func (v *VerifTx) MaxPayload(typ byte) int { return v.c.maxPayloadSizeForWrite(recordType(typ)) }
+
+// ExplicitNonceLen calls out.explicitNonceLen.
+func (v *VerifTx) ExplicitNonceLen() int { return v.c.out.explicitNonceLen() }
+
+// WriteRecord calls writeRecordLocked(typ, data) under the out lock.
+func (v *VerifTx) WriteRecord(typ byte, data []byte) (int, error) {
+	v.c.out.Lock()
+	defer v.c.out.Unlock()
+	return v.c.writeRecordLocked(recordType(typ), data)
+}
+
+// SetBuffering sets c.buffering (what the handshake does before it writes a flight).
+func (v *VerifTx) SetBuffering(b bool) { v.c.buffering = b }
+
+// Flush calls flush.
+func (v *VerifTx) Flush() (int, error) { return v.c.flush() }
